@@ -193,7 +193,10 @@ def array_entries(model, arr):
     return entries, default
 
 
-def value_to_py(model, v, heap=None):
+def value_to_py(model, v, heap=None, _depth=0, _seen=None):
+    if _depth > 5:
+        return "<...>"
+    _seen = _seen or set()
     from .values import VNone, VBool, VInt, VStr, VOpt, VTuple, VList, VMap, VSet, VRef, VOpaque
 
     if isinstance(v, VNone):
@@ -235,11 +238,17 @@ def value_to_py(model, v, heap=None):
     if isinstance(v, VRef) and heap is not None and v.addr in heap:
         cell = heap[v.addr]
         if cell.val is not None:
-            return value_to_py(model, cell.val, heap)
+            return value_to_py(model, cell.val, heap, _depth + 1, _seen)
+        if v.addr in _seen:
+            return f"<ref {v.addr}>"
+        _seen = _seen | {v.addr}
         out = {"__class__": getattr(cell.cls, "qualname", str(cell.cls))}
         for fname, fv in cell.fields.items():
             try:
-                out[fname] = value_to_py(model, fv, heap)
+                if isinstance(fv, z3.ExprRef):
+                    out[fname] = str(model.eval(fv, model_completion=True))[:200]
+                else:
+                    out[fname] = value_to_py(model, fv, heap, _depth + 1, _seen)
             except Exception:
                 out[fname] = "<?>"
         return out
